@@ -140,6 +140,13 @@ pub struct Cmd {
     /// bytes appended to the request id (0 = the usual short id): the answer echoes the id, so
     /// this sizes the answer; > 0 marks a command of a back-pressure episode
     pub pad: usize,
+    /// fault class "address occupied at activation time": the harness binds the listener's address
+    /// itself (no SO_REUSEPORT) before it sends this ActivateListener and releases it once the
+    /// answer is in
+    pub occupy: bool,
+    /// the retry of an activation that failed on an occupied address: once it is answered OK the
+    /// address must hold a listening socket of this process
+    pub verify: bool,
 }
 
 pub fn req(rt: &RequestType) -> Request {
@@ -302,6 +309,8 @@ pub fn describe(rt: &RequestType) -> Value {
 // ------------------------------------------------------------------------------------------
 // generator
 
+pub const OCCUPIED_TAG: &str = "listener:address-occupied-at-activation-then-retry";
+
 pub struct Gen<'a> {
     pub rng: &'a mut Rng,
     pub cell: Cell,
@@ -322,7 +331,7 @@ impl<'a> Gen<'a> {
         if !tag.is_empty() {
             self.patterns.insert(tag);
         }
-        self.out.push(Cmd { rt, tag, flush: true, pad: 0 });
+        self.out.push(Cmd { rt, tag, flush: true, pad: 0, occupy: false, verify: false });
     }
 
     fn invalid(&mut self) -> bool {
@@ -1074,7 +1083,47 @@ impl<'a> Gen<'a> {
         }
     }
 
+    /// Fault followed by a retry: the listener's address is held by another socket when the
+    /// activation arrives (answered FAILURE), is released, and the activation is sent again.
+    pub fn occupied_activation(&mut self) {
+        let kind = match self.rng.below(10) {
+            0..=3 => LK::Tcp,
+            4..=6 => LK::Http,
+            7..=8 => LK::Https,
+            _ => LK::Udp,
+        };
+        // a listener that is not active yet: a fresh one, or one the model holds inactive
+        let inactive: Vec<SocketAddr> = kind.ports().iter().map(|p| self.cell.a(*p)).filter(|a| match kind {
+            LK::Http => self.g.http_listeners.get(a).is_some_and(|l| !l.active),
+            LK::Https => self.g.https_listeners.get(a).is_some_and(|l| !l.active),
+            LK::Tcp => self.g.tcp_listeners.get(a).is_some_and(|l| !l.active),
+            LK::Udp => self.g.udp_listeners.get(a).is_some_and(|l| !l.active),
+        }).collect();
+        let a = match self.fresh_listener(kind) {
+            Some(a) => {
+                let rt = self.add_listener_rt(kind, a);
+                self.push(rt, OCCUPIED_TAG);
+                a
+            }
+            None if !inactive.is_empty() => *self.rng.pick(&inactive),
+            None => return,
+        };
+        let rt = self.activate_rt(kind, a);
+        self.push(rt, OCCUPIED_TAG);
+        if let Some(c) = self.out.last_mut() {
+            c.occupy = true;
+        }
+        let rt = self.activate_rt(kind, a);
+        self.push(rt, OCCUPIED_TAG);
+        if let Some(c) = self.out.last_mut() {
+            c.verify = true;
+        }
+    }
+
     pub fn one(&mut self) {
+        if self.rng.chance(1, 40) {
+            return self.occupied_activation();
+        }
         if self.rng.chance(1, 5) {
             return self.pattern();
         }
@@ -1149,7 +1198,13 @@ pub fn generate(rng: &mut Rng, cell: Cell, max_len: usize) -> Plan {
         while g.out.len() < n {
             g.one();
         }
-        g.out.truncate(n.max(10));
+        // never cut an occupied-activation block in two (the main process's view says `active`
+        // after the refused activation; only the retry brings the worker in line with it)
+        let mut cut = n.max(10).min(g.out.len());
+        while cut < g.out.len() && g.out[cut].tag == OCCUPIED_TAG && g.out[cut - 1].tag == OCCUPIED_TAG {
+            cut += 1;
+        }
+        g.out.truncate(cut);
         if backpressure {
             g.backpressure_episode(small_buffers);
             for _ in 0..g.rng.urange(0, 5) {
@@ -1166,7 +1221,7 @@ pub fn generate(rng: &mut Rng, cell: Cell, max_len: usize) -> Plan {
         (g.out, g.patterns.into_iter().collect::<Vec<_>>())
     };
     if burst {
-        for c in cmds.iter_mut().filter(|c| c.pad == 0) {
+        for c in cmds.iter_mut().filter(|c| c.pad == 0 && !c.occupy && !c.verify) {
             c.flush = rng.chance(1, 8);
         }
     }
@@ -1181,7 +1236,11 @@ pub fn plan_json(p: &Plan) -> Value {
         "closing": format!("{:?}", p.closing),
         "commands": p.cmds.iter().map(|c| {
             let d = describe(&c.rt);
-            if c.pad > 0 {
+            if c.occupy {
+                json!([d, "<the harness holds this address (bind without SO_REUSEPORT) until the answer is in>"])
+            } else if c.verify {
+                json!([d, "<retry after the address was released>"])
+            } else if c.pad > 0 {
                 json!([d, format!("id padded with {} bytes{}", c.pad, if c.flush { "; then no read for 300 ms, then a slow drain" } else { "; next command written without reading" })])
             } else if p.burst && c.flush { json!([d, "<read answers>"]) } else { d }
         }).collect::<Vec<_>>(),
